@@ -623,7 +623,7 @@ MUTANTS = [
     Mutant('backup forgets the tempo', P, "    seconds = ((midi_ticks / constants.STANDARD_PPQ)\n               * self.state.seconds_per_quarter)\n    self.state.time_position -= seconds", "    seconds = (midi_ticks / constants.STANDARD_PPQ)\n    self.state.time_position -= seconds", rule='CONV/seconds'),
     Mutant('note seconds scaled twice by resolution', P, "    self.seconds = self.midi_ticks / constants.STANDARD_PPQ\n", "    self.seconds = self.midi_ticks\n", rule='CONV/seconds'),
     Mutant('chord notes advance the cursor', P, "    else:\n      # Only increment time positions once in chord\n      self.state.time_position += self.seconds", "    self.state.time_position += self.seconds", rule='CONV/chord-onset'),
-    Mutant('parts continue where the previous ended', P, "    self._state.time_position = 0\n    self._state.midi_channel", "    self._state.midi_channel", rule='CONV/part-reset'),
+    Mutant('parts continue where the previous ended', P, "    self._state.time_position = 0\n    self._state.midi_channel", "    self._state.midi_channel", rule='STATE/part-reset'),
     Mutant('tempo change keeps the old seconds per quarter', P, "          self.state.seconds_per_quarter = 60 / self.state.qpm\n", "", rule='CONV/tempo'),
     Mutant('two rows of the fifths table swapped', R, "music_proto_keys = [11, 6, 1, 8, 3, 10, 5, 0, 7, 2, 9, 4, 11, 6, 1]", "music_proto_keys = [11, 6, 1, 8, 3, 10, 5, 0, 2, 7, 9, 4, 11, 6, 1]", rule='KEY/fifths-table'),
     Mutant('minor keys report the major tonic', R, "      key_signature.key = (key_signature.key + 9) % 12\n", "", rule='KEY/minor-tonic'),
